@@ -825,6 +825,30 @@ def r17_7(chk, mod, params, nrows=103):
         okn += ok
         chk.ob("R17.7", MOD, q, "a count is printed exactly when it is greater than one", ok,
                fingerprint=f"threshold:{P.atom(cond)}", found=str(P.atom(a)))
+        # what is printed is the count in decimal: the number itself (formatted by the f-string / str) or, as subscripts, one character
+        # U+2080 + d per decimal digit d of str(count) - a single character U+2080 + count is right only up to 9
+        cnt = cond[2]
+        shown = a[2]
+
+        def decimal(t):
+            ta = t.as_atom()
+            if ta and ta[0] == "ite" and cnt.key() not in ta[1].key():
+                return decimal(ta[2]) and decimal(ta[3])          # plain or subscript, chosen by a flag: both must be decimal
+            if t.key() in (cnt.key(), f"str({cnt})"):
+                return True
+            if ta and ta[0] == "call" and call_name(ta) == ".join" and ta[2]:
+                ca = ta[2][0].as_atom()
+                if ca and ca[0] == "comp" and len(ca) == 4 and len(ca[3]) == 1 and ca[3][0][1].key() == f"str({cnt})" and not ca[3][0][2]:
+                    el = ca[2].as_atom()
+                    # chr(0x2080 + int(digit))
+                    if el and el[0] == "call" and call_name(el) == "chr" and len(el[2]) == 1:
+                        da = (el[2][0] - 0x2080).as_atom()
+                        return bool(da and da[0] == "call" and call_name(da) == "int" and len(da[2]) == 1 and da[2][0].as_atom()
+                                    and da[2][0].as_atom()[0] == "sub" and da[2][0].as_atom()[1].key() == f"str({cnt})")
+            return False
+        okd = decimal(shown)
+        chk.ob("R17.7", MOD, q, "the count is printed in decimal (as it is, or digit by digit in subscript characters)", okd,
+               fingerprint=f"decimal:{'sub' if 'chr(' in shown.key() else 'plain'}", found=str(shown)[:160])
     chk.need(len(thresholds) >= 1, "chemical_formula: no count-formatting branch found")
     # callers: every formula in the library comes from this one implementation
     for rel, qq in (("core/molecule.py", "Molecule.molecular_formula"), ("crystal/asymmetric_unit.py", "AsymmetricUnit.formula")):
